@@ -6,7 +6,7 @@ from . import core
 from .core import log, ToolError
 
 # as-built variant constants (what the current tree does); justified by trace validation
-ASBUILT = {"CloseLock": "TRUE", "WakeOnError": "TRUE", "EofIsError": "TRUE"}
+ASBUILT = {"CloseLock": "TRUE", "WakeOnError": "TRUE", "EofIsError": "TRUE", "PanicGuard": "TRUE"}
 ASBUILT_FILE = os.path.join(core.VERIF, "spec", "asbuilt.json")
 if os.path.exists(ASBUILT_FILE):
     ASBUILT.update(json.load(open(ASBUILT_FILE)).get("mt", {}))
